@@ -394,6 +394,94 @@ def _srcguard(ctx, index):
     ctx.count("srcguard_flag_definitions", n_defs)
 
 
+def _sharednode(ctx, index, reach):
+    """
+    C20.sharednode — "every generated file is valid Python whose __all__ names symbols it defines or imports" when ONE
+    syntax node built in a function is placed into TWO emitted modules (`_emit_symbol` puts the same `__all__ = [name]`
+    statement into the generated module and into the `__init__.py` written after it). Between the two emissions the
+    module that holds the node is handed to helpers (merge_modules, infer_imports, merge_assignment_lists, ...); if one
+    of them mutates what it is given BELOW the statement list (levels >= 2: a statement or something inside it), the
+    second file is emitted from a node that is no longer the one built for it. Instances are discovered: a local bound
+    once to a constructor call and loaded at >= 2 places; the holders are the locals whose value expression mentions it
+    (transitively, re-bindings included). Decided through the input-mutation summaries (sa/inputmut.py); replacing the
+    statement list or appending to it (levels 0 and 1) is what the merge helpers are for and is accepted.
+    """
+    from .c10 import input_mutation
+
+    im = input_mutation(index)
+    n_shared = n_calls = 0
+    for q in reach:
+        f = index.funcs.get(q)
+        if f is None or not f.mod.name.startswith("cdd.compound.exmod"):
+            continue
+        binds, loads = {}, {}
+        for n in iter_own(f.node):
+            if isinstance(n, (ast.Assign, ast.AnnAssign)):
+                tg = n.targets if isinstance(n, ast.Assign) else [n.target]
+                for t in tg:
+                    if isinstance(t, ast.Name) and n.value is not None:
+                        binds.setdefault(t.id, []).append(n.value)
+            elif isinstance(n, ast.Name) and isinstance(n.ctx, ast.Load):
+                loads[n.id] = loads.get(n.id, 0) + 1
+        shared = sorted(
+            v
+            for v, vals in binds.items()
+            if len(vals) == 1
+            and isinstance(vals[0], ast.Call)
+            and isinstance(vals[0].func, ast.Name)
+            and hasattr(ast, vals[0].func.id)
+            and isinstance(getattr(ast, vals[0].func.id), type)
+            and issubclass(getattr(ast, vals[0].func.id), ast.stmt)
+            and loads.get(v, 0) >= 2
+        )
+        for S in shared:
+            n_shared += 1
+            holders, changed = {S}, True
+            while changed:
+                changed = False
+                for v, vals in binds.items():
+                    if v in holders:
+                        continue
+                    if any(isinstance(x, ast.Name) and x.id in holders for val in vals for x in ast.walk(val)):
+                        holders.add(v)
+                        changed = True
+            for c in iter_own(f.node):
+                if not isinstance(c, ast.Call):
+                    continue
+                tq = index.callee(f.mod, c, f)
+                g = index.funcs.get(tq) if tq else None
+                if g is None:
+                    continue
+                params = [a.arg for a in g.node.args.posonlyargs + g.node.args.args]
+                pairs = [(params[i], a) for i, a in enumerate(c.args) if i < len(params)] + [
+                    (k.arg, k.value) for k in c.keywords if k.arg
+                ]
+                for pname, a in pairs:
+                    if not (isinstance(a, ast.Name) and a.id in holders):
+                        continue
+                    n_calls += 1
+                    floor_level = 0 if a.id == S else 2
+                    m = {L: w for L, w in im.mutates(g.qual, pname).items() if L >= floor_level}
+                    ok = not m
+                    ctx.ob(
+                        "C20.sharednode",
+                        f,
+                        "`{}` (holds `{}`, emitted twice) handed to {}({})".format(a.id, S, g.node.name, pname),
+                        ok,
+                        ""
+                        if ok
+                        else "`{}` is put into two emitted modules; {} mutates the module it is given at nesting level {} "
+                        "(a statement or below): {} — the file emitted second is written from a changed node".format(
+                            S, g.node.name, min(m), im.chain(g.qual, pname, min(m))
+                        ),
+                        line=c.lineno,
+                    )
+    ctx.count("nodes_emitted_twice", n_shared)
+    ctx.count("hand_overs_of_their_holders", n_calls)
+    ctx.floor("syntax nodes placed into two emitted modules (exmod_utils._emit_symbol.__all___node)", n_shared, 1)
+    ctx.floor("hand-overs of a module holding such a node to a package helper", n_calls, 4)
+
+
 def run(ctx):
     """entry"""
     index = ctx.index
@@ -634,6 +722,7 @@ def run(ctx):
 
     ctx.section(c20_prov.run, ctx, index, graph, effects, wm, reach)
     ctx.section(_srcguard, ctx, index)
+    ctx.section(_sharednode, ctx, index, reach)
     # note on find_spec
     fmf = index.funcs.get("cdd.shared.pure_utils.find_module_filepath")
     if fmf is not None and fmf.qual in reach:
